@@ -145,9 +145,6 @@ func genRaw(r *hx.Rand) RawIn {
 		m = genCodecMsg(r, false)
 	}
 	data, _ := m.Real().MarshalBinary()
-	if m.T == "handshake" {
-		data = flushedHandshakeOf(m)
-	}
 	ty := typeCode[m.T]
 	switch r.Intn(8) {
 	case 0, 1, 2:
@@ -171,16 +168,6 @@ func genRaw(r *hx.Rand) RawIn {
 		data = append(append([]byte(nil), data...), r.Bytes(r.Intn(8))...)
 	}
 	return RawIn{Ty: ty, Data: hx.B(data)}
-}
-
-func flushedHandshakeOf(m Msg) []byte {
-	b := []byte{byte(m.PV), byte(m.PV >> 8)}
-	for _, s := range m.Strs {
-		x := s.Bytes()
-		b = append(b, byte(len(x)), byte(len(x)>>8))
-		b = append(b, x...)
-	}
-	return b
 }
 
 // ---------- generators: sessions ----------
@@ -290,7 +277,7 @@ func genSession(r *hx.Rand, large bool) []Action {
 		cp.items = cp.items[1:]
 		n := sessPayLen(r)
 		if large && r.Chance(1, 3) {
-			n = r.PickInt([]int{4060, 4100, 5000, 9000})
+			n = r.PickInt([]int{4060, 4100, 5000, 9000, 20000, 65000})
 		}
 		pay := genPay(r, n)
 		switch it {
@@ -304,7 +291,8 @@ func genSession(r *hx.Rand, large bool) []Action {
 			ncid++
 		case "D", "X":
 			m := Msg{T: "data", L: cp.l, R: cp.r, P: &pay}
-			if cp.cid >= 0 && r.Chance(1, 5) {
+			if cp.cid >= 0 && r.Chance(1, 5) && (n > 0 || r.Chance(1, 6)) {
+				// (a waiting Read is not woken for good by an empty payload: it runs into its deadline)
 				acts = append(acts, Action{A: "park", C: cp.cid, N: r.PickInt(readSizes), M: &m})
 			} else {
 				send(m)
@@ -328,7 +316,7 @@ func genSession(r *hx.Rand, large bool) []Action {
 		if cp.cid >= 0 && alive && r.Chance(1, 6) {
 			wn := r.PickInt([]int{0, 1, 5, 40, 300, 2000, 4000})
 			if large && r.Chance(1, 2) {
-				wn = r.PickInt([]int{4060, 6000})
+				wn = r.PickInt([]int{4060, 6000, 65000})
 			}
 			wp := genPay(r, wn)
 			acts = append(acts, Action{A: "write", C: cp.cid, P: &wp})
@@ -442,7 +430,7 @@ func main() {
 		}
 		inputs = []Input{in}
 	} else {
-		nCodec, nRaw, nSess, nLarge := 260, 200, 70, 4
+		nCodec, nRaw, nSess, nLarge := 260, 200, 70, 6
 		switch o.Tier {
 		case "thorough":
 			nCodec, nRaw, nSess, nLarge = 1500, 1500, 700, 20
